@@ -66,10 +66,14 @@ def expected_bin(v_1, v_2, e_1, e_2, alpha, ndf, exact=False):
         return False, 0.0
     if e_1 * e_1 + e_2 * e_2 == 0 or math.isinf(e_1 * e_1 + e_2 * e_2):
         return None, None               # underflow / overflow of the squares
+    pval = None
     if exact and stats.HAVE_MP:
-        pval = stats.two_sided_p_exact(stats.exact_t(v_1, v_2, e_1, e_2), ndf)
-        pval = float(pval)
-    else:
+        try:
+            pval = float(stats.two_sided_p_exact(
+                stats.exact_t(v_1, v_2, e_1, e_2), ndf))
+        except ValueError:
+            pval = None     # mpmath did not converge: use the fast variant
+    if pval is None:
         tabs = abs(v_1 - v_2) / math.hypot(e_1, e_2)
         pval = stats.two_sided_p(tabs, ndf)
     if abs(pval - alpha) <= TIE * alpha:
